@@ -355,3 +355,82 @@ def scan_forbidden():
         for m in FORBIDDEN.finditer(txt2):
             bad.append((f, m.group(0)))
     return bad
+
+
+def run_isolated(exe, mode, cases, wd, tag, nshards=None, timeout=120, env=None, mem_bytes=None):
+    """Like run_sharded, but a shard that dies or times out is attributed to the first case without an
+    'end' line (the culprit); the remaining cases are re-run in a fresh process.
+    Returns (cases_out: {id: lines}, culprits: {id: description})."""
+    import resource
+    nshards = nshards or min(NPROC, max(1, len(cases) // 4))
+    queues = [[] for _ in range(nshards)]
+    for i, c in enumerate(cases):
+        queues[i % nshards].append(c)
+    results = {}
+    culprits = {}
+
+    def limit():
+        if mem_bytes:
+            resource.setrlimit(resource.RLIMIT_AS, (mem_bytes, mem_bytes))
+
+    rnd = 0
+    while any(queues):
+        procs = []
+        for i, q in enumerate(queues):
+            if not q:
+                continue
+            path = os.path.join(wd, "%s.%d.%d.script" % (tag, i, rnd))
+            with open(path, "w") as f:
+                for cid, lines in q:
+                    f.write("case %s\n" % cid)
+                    for l in lines:
+                        f.write(l + "\n")
+                    f.write("end\n")
+            outp = os.path.join(wd, "%s.%d.%d.out" % (tag, i, rnd))
+            p = subprocess.Popen([exe, mode, path], stdout=open(outp, "w"), stderr=subprocess.PIPE, env=env or os.environ, preexec_fn=limit)
+            procs.append((i, p, outp))
+        newq = [[] for _ in range(nshards)]
+        for i, p, outp in procs:
+            why = None
+            try:
+                _, err = p.communicate(timeout=timeout)
+                if p.returncode != 0:
+                    why = "process exited with status %d: %s" % (p.returncode, (err or b"").decode(errors="replace")[-300:].replace("\n", " | "))
+            except subprocess.TimeoutExpired:
+                p.kill()
+                _, err = p.communicate()
+                why = "deadline of %ds exceeded (possible non-termination)" % timeout
+            text = open(outp, errors="replace").read()
+            done, order = parse_obs_complete(text)
+            results.update(done)
+            if why is not None:
+                q = queues[i]
+                ids = [cid for cid, _ in q]
+                k = next((j for j, cid in enumerate(ids) if cid not in done), None)
+                if k is not None:
+                    culprits[ids[k]] = why
+                    newq[i] = q[k + 1:]
+        queues = newq
+        rnd += 1
+        if rnd > 200:
+            break
+    return results, culprits
+
+
+def parse_obs_complete(text):
+    """Only cases terminated by 'end'."""
+    cases = {}
+    order = []
+    cur = None
+    buf = []
+    for line in text.splitlines():
+        if line.startswith("case "):
+            cur = line[5:].strip()
+            buf = []
+        elif line == "end" and cur is not None:
+            cases[cur] = buf
+            order.append(cur)
+            cur = None
+        elif cur is not None:
+            buf.append(line)
+    return cases, order
